@@ -20,7 +20,7 @@ echo "build=$rc_build suite_with_change=$rc_suite demo_without=$rc_clean demo_wi
 mkdir -p "$ROOT/seeded/$NAME"; cp "$SRC/patch.diff" "$SRC/demo_test.go" "$ROOT/seeded/$NAME/"; [ -f "$SRC/notes.md" ] && cp "$SRC/notes.md" "$ROOT/seeded/$NAME/"
 res=""
 for prop in "$@"; do
-  out=$(GVC_REPO="$TMP" GVC_OUT="$TMP/.gvc-out" "$ROOT/check" "$prop" quick 2>&1); rc=$?
+  out=$(GVC_REPO="$TMP" GVC_OUT="$TMP/.gvc-out" "$ROOT/check" "$prop" quick 2>&1 </dev/null); rc=$?
   n=$(echo "$out" | grep -c '^VIOLATION')
   first=$(echo "$out" | grep '^VIOLATION' | head -3 | sed 's/.*obligation=//' | tr '\n' ';')
   echo "check $prop: exit=$rc violations=$n first: $first"
